@@ -33,7 +33,9 @@ RULE = ('direction pairs: generic, poles, antipodes (exact and near), identical 
         'sources at the poles, t in [0,2pi) incl. 0, pi and the neighbours of 2pi; rotate_signal_events_on_sphere in batches '
         '(mixed, one source, single event, ALL true directions within 1e-5 / 1e-9 / 0 of the source, antipodal, poles, reco '
         '1e-9..2 rad from true, rotated direction exactly a pole); history probes (repeat / interleave / in-place update / '
-        'ownership / batch vs single / scalar / broadcast / factories); NaN/inf inputs as malformed stream. '
+        'ownership / batch vs single / scalar / broadcast / factories); the real signal_event_post_sampling_processing on '
+        'sparse / unordered / single-source index tables (9 deterministic + random), every event against its own source; the '
+        'real signal PDF calculate_pd on K x N stub TDMs; NaN/inf inputs as malformed stream. '
         'A case is non-trivial when its inputs are finite; distinct by input hash')
 TRUSTED = [
     'Coq 8.16.1 kernel (no vm_compute/native_compute needed by these proofs)',
